@@ -1,6 +1,10 @@
 import XsVerif.Props.C05
+import XsVerif.Props.C05Encode
 open XsVerif.Props.C05
 #print axioms jsonml_level_roundtrip
 #print axioms jsonml_roundtrip
 #print axioms iter_unordered_is_permutation
 #print axioms iter_collapsed_is_permutation
+#print axioms strict_encode_sound
+#print axioms step_simulation
+#print axioms strict_encode_counterexample_empty_choice
